@@ -19,7 +19,8 @@
 (*                bind, utilities they refer to                            *)
 (*   trans      : key :> [src |-> variable, rewriters |-> set of ids]      *)
 (*   fixVars, fixForm : variables of the fix template, "string"|"object"   *)
-(*   rewriters  : id :> [hasFix |-> BOOLEAN, refs |-> set of [to, edge]]   *)
+(*   rewriters  : id :> [hasFix |-> BOOLEAN, refs |-> set of [to, edge],   *)
+(*                       uses |-> rewriter ids its own transform applies]  *)
 (*   hasKinds   : `rule` has potential kinds                               *)
 (*                                                                         *)
 (* P: Accept    - the statement of C12                                     *)
@@ -54,9 +55,13 @@ VarsOK(d) ==
     /\ d.consKeys \subseteq Defined(d)
     /\ \A k \in TransKeys(d) : d.trans[k].src \in Defined(d) \cup TransKeys(d)
     /\ d.fixVars \subseteq Defined(d) \cup TransKeys(d)
+\* rewriters may apply other rewriters through their own `rewrite` transformations (uses); every id must resolve,
+\* however deep the chain and whether or not the rule itself ever applies the rewriter
+RewriterUses(d, r) == IF "uses" \in DOMAIN d.rewriters[r] THEN d.rewriters[r].uses ELSE {}
 RewritersOK(d) ==
     /\ \A k \in TransKeys(d) : d.trans[k].rewriters \subseteq DOMAIN d.rewriters
     /\ \A r \in DOMAIN d.rewriters : d.rewriters[r].hasFix
+    /\ \A r \in DOMAIN d.rewriters : RewriterUses(d, r) \subseteq DOMAIN d.rewriters
 
 Accept(d) == /\ RefsResolve(d) /\ ~SameNodeCycle(d) /\ ~TransformCycle(d)
              /\ VarsOK(d) /\ RewritersOK(d) /\ d.hasKinds
